@@ -328,8 +328,7 @@ PROPS = {
     "C02": {
         "generated": True,
         "proof_modules": ["GrolProofs.Props.C02", "GrolProofs.Props.C08", "GrolProofs.Precedence"],
-        "theorems": ["Grol.C02.witness_statement_starts_with_prefix_operator", "Grol.C02.witness_compact_adjacent_statements",
-                     "Grol.C02.witness_repeated_associative_operator", "Grol.C08.parser_never_panics", "Grol.C08.printer_never_panics",
+        "theorems": ["Grol.C02.witness_statement_starts_with_prefix_operator", "Grol.C02.witness_repeated_associative_operator", "Grol.C08.parser_never_panics", "Grol.C08.printer_never_panics",
                      "Grol.Generated.precedences_documented"],
         "suites": ["format"],
         "rule": _FRONT_RULE + " format suite: one case = one source text; in file mode and in line mode: parse, print (normal, compact, "
